@@ -696,6 +696,14 @@ def _candidates(ctx, gname, sname):
     st = _stages(ctx, gname, sname)
     g, s = _load(ctx, gname, sname)
     cands = list(st["majors"])[:3]
+    if len(cands) >= 2:
+        # candidates need not share their structure OBJECT (hand-built, copied or unpickled one by one they do
+        # not): the second one gets a structure of its own that is equal in value
+        from aldy.solutions import MajorSolution
+
+        m1 = cands[1]
+        own = CNSolution(g, m1.cn_solution.score, list(m1.cn_solution.solution.elements()))
+        cands[1] = MajorSolution(m1.score, m1.solution, own, m1.added)
     seen = {_cand_key(m) for m in cands}
     alts = [["1"] * k for k in (2, 3, 1)]
     for cn, c in g.cn_configs.items():
